@@ -143,6 +143,7 @@ package common
 // ----- random.go -----
 
 //@ func MustGetRandomInt
+//@   sampler
 //@   deadpoints 2
 //@   props C06 C19
 //@   requires rand != nil
@@ -150,6 +151,7 @@ package common
 //@   ensures result != nil && fresh(result) && 0 <= val(result) && val(result) < pow2(bits) - 1
 
 //@ func GetRandomPositiveInt
+//@   sampler
 //@   props C06 C19
 //@   requires rand != nil
 //@   requires [bound-size] (lessThan != nil && val(lessThan) > 0) ==> bitlen(val(lessThan)) <= 5000
@@ -158,6 +160,7 @@ package common
 //@   assume-ensures [ND-sample-nonzero] (result != nil && bitlen(val(lessThan)) >= 250) ==> val(result) != 0
 
 //@ func GetRandomPositiveRelativelyPrimeInt
+//@   sampler
 //@   props C06 C19
 //@   requires rand != nil
 //@   requires [bound-size] (n != nil && val(n) > 0) ==> bitlen(val(n)) <= 5000
